@@ -491,7 +491,9 @@ def run_engine(P, eng, exe, res, rng, tier, known):
         b = eng.run_model([Case('s', small)], a)
         o2 = eng.oracle(Case('s', small), a[0])
         crashed = any(l.startswith('!') for l in a[0])
-        fi = bool(o2) or crashed
+        # engines whose model output IS the property's prediction from a reference run of the same
+        # implementation (C05/C06/C08 reader engines): a disagreement is itself a failing input
+        fi = bool(o2) or crashed or bool(getattr(eng, 'mismatch_is_failing_input', False))
         res.violation('correspondence', {
             'engine': eng.name, 'label': c.label,
             'what': 'model and implementation disagree' + ('; implementation crashed/aborted (sanitizer or signal)' if crashed else '')
